@@ -92,6 +92,7 @@ type Interp struct {
 	Merged     int
 	InitNotes  map[string]string
 	allocLimit func(n int64, in ssa.Instruction, s *State) string // optional: judge allocation sizes
+	inputLen   int
 }
 
 func NewInterp(p *Program, lim Limits) *Interp {
@@ -825,6 +826,24 @@ func (it *Interp) eval(s *State, fr *Frame, v ssa.Value) AV {
 	case *ssa.MakeSlice:
 		return it.makeSlice(s, fr, x)
 	case *ssa.MakeMap:
+		if x.Reserve != nil && it.allocLimit != nil {
+			if r, ok := it.val(fr, x.Reserve).(IntV); ok {
+				msg := ""
+				if r.Known {
+					msg = it.allocLimit(r.V, x, s)
+				} else if r.Sym > 0 {
+					if si := s.sym(r.Sym); !si.Bounded && !si.Inexact {
+						_, hi, _ := s.bounds(r)
+						msg = it.allocLimit(hi, x, s)
+					}
+				}
+				if msg != "" {
+					it.fault(s, "alloc", x, msg)
+					s.done = true
+					it.stop("")
+				}
+			}
+		}
 		return MapV{Cell: it.newCell(s, TopV{})}
 	case *ssa.MakeChan:
 		return TopV{}
@@ -1559,6 +1578,20 @@ func (it *Interp) slice(s *State, fr *Frame, x *ssa.Slice) AV {
 		if !b.Nil {
 			n, c = b.Hi-b.Lo, b.Cap-b.Lo
 		}
+		if b.CapUnk {
+			// bounds up to the length are exact; beyond it the capacity decides, which is unknown
+			lo, lok, _ := it.intArg(fr, x.Low, 0)
+			hi, hok, _ := it.intArg(fr, x.High, int64(n))
+			if lok && hok && lo >= 0 && lo <= hi && hi <= int64(n) && x.Max == nil {
+				return SliceV{Arr: b.Arr, Lo: b.Lo + int(lo), Hi: b.Lo + int(hi), Cap: b.Lo + int(hi), CapUnk: true}
+			}
+			if lok && hok && (lo < 0 || lo > hi) {
+				it.fault(s, "slice", x, fmt.Sprintf("slice bounds [%d:%d] inverted or negative", lo, hi))
+				s.done = true
+				it.stop("")
+			}
+			return SliceV{Top: true, Opq: b.Opq}
+		}
 		lo, lok, loV := it.intArg(fr, x.Low, 0)
 		hi, hok, hiV := it.intArg(fr, x.High, int64(n))
 		mx, mok, _ := it.intArg(fr, x.Max, int64(c))
@@ -1624,6 +1657,15 @@ func (it *Interp) makeSlice(s *State, fr *Frame, x *ssa.MakeSlice) AV {
 			s.done = true
 			it.stop("")
 		}
+	}
+	if ln.Known && !cp.Known && ln.V <= 4096 {
+		// length is known, capacity is not: model the visible part exactly
+		n := int(ln.V)
+		arr := ArrV{N: n, Def: zeroOf(et), Elems: make([]AV, n)}
+		for i := range arr.Elems {
+			arr.Elems[i] = arr.Def
+		}
+		return SliceV{Arr: it.newCell(s, arr), Lo: 0, Hi: n, Cap: n, CapUnk: true}
 	}
 	if !ln.Known || !cp.Known {
 		return SliceV{Top: true, Opq: ln.Opq || cp.Opq}
